@@ -69,6 +69,8 @@ def compute_case(case):
     comps = case["dirs"] + [case["file"]]
     at = case["noise_at"] % len(comps)
     noisy = "/".join(comps[:at]) + ("/" if at else "") + "".join(case["noise"]) + "/".join(comps[at:])
+    if noisy.startswith("/"):
+        noisy = "." + noisy          # keep it relative
     check(tim._norm_rel(noisy) == clean, "harness-normaliser", "harness bug: %r does not normalise to %r" % (noisy, clean))
     tmp = tempfile.mkdtemp(prefix="c16-")
     try:
